@@ -115,6 +115,12 @@ CHECKS["C14"] = dict(
     note=NOTE_A, technique="CrossHair-driven exhaustive enumeration of operation histories on the real DescriptorFormat against a stack model",
     design="§2 C14", engine="crosshair")
 
+CHECKS["C15"] = dict(
+    text=LEVEL_TEXT_A + ". The DOT source is read back and compared, as a tree, with the decay lines of the chain dictionary; identifiers "
+         "are tracked across all graphs built in a process; every 16th source is also handed to the dot binary." + ENUM,
+    note=NOTE_A + "; the external dot binary for the acceptance clause", technique="CrossHair-driven exhaustive enumeration of chain "
+    "dictionaries through DecayChainViewer, oracle = line-by-line tree comparison of the DOT source", design="§2 C15", engine="crosshair")
+
 PENDING_REASON = "check not built yet in this session (planned, see DESIGN.md §2); not claimed until its quick command runs clean"
 NA = {
     "C20": "quantifies over process histories, interpreter starts and PYTHONHASHSEED values of code that must run untraced "
